@@ -578,3 +578,17 @@ def walk_no_nested(node: ast.AST) -> Iterator[ast.AST]:
         first = False
         yield n
         stack.extend(reversed(list(ast.iter_child_nodes(n))))
+
+
+def increment_of(st: ast.AST):
+    """(target text, integer amount) if `st` is  t += c  /  t = t + c  /  t = c + t  (c integer literal)."""
+    if isinstance(st, ast.AugAssign) and isinstance(st.op, (ast.Add, ast.Sub)) and isinstance(st.value, ast.Constant) and isinstance(st.value.value, int):
+        return unparse(st.target), st.value.value if isinstance(st.op, ast.Add) else -st.value.value
+    if isinstance(st, ast.Assign) and len(st.targets) == 1 and isinstance(st.value, ast.BinOp) and isinstance(st.value.op, (ast.Add, ast.Sub)):
+        t = unparse(st.targets[0])
+        l, r = st.value.left, st.value.right
+        if unparse(l) == t and isinstance(r, ast.Constant) and isinstance(r.value, int):
+            return t, r.value if isinstance(st.value.op, ast.Add) else -r.value
+        if unparse(r) == t and isinstance(l, ast.Constant) and isinstance(l.value, int) and isinstance(st.value.op, ast.Add):
+            return t, l.value
+    return None
